@@ -187,4 +187,23 @@ def getEquationsFor (cx : Ctx) (π : Adv) (obs : FlatEq → List (Lhs VRef)) (F 
         | .error x => .error x
         | .ok sorted => .ok (sorted.filter fun v => v ∈ required π g vars recurse && C09.hasEq eqs v)
 
+/-! ## The naming of nodes used by the driver (and by the examples of Props/C15) -/
+
+def flatName (v : VRef) : String := v.1 ++ "$" ++ v.2
+
+/-- all nodes the queries can mention: the variables, then the derivative left-hand sides in equation order -/
+def nodesOf (F : Flat) : List (Lhs VRef) :=
+  (variables F).map Lhs.var ++ (F.eqs.filter (·.lhs.isDiff)).map (·.lhs)
+
+def strKey : Lhs VRef → String
+  | .var a => flatName a        -- `Variable.__str__` is the bare name; inside a Derivative SymPy prints `_name`
+  | .diff x t => "Derivative(_" ++ flatName x ++ ", _" ++ flatName t ++ ")"
+
+def ctxOf (F : Flat) : Ctx :=
+  let U := nodesOf F
+  { num := fun x => U.idxOf x
+    key := fun n => match U[n]? with
+      | some x => strKey x
+      | none => "?" ++ toString n }
+
 end C15
